@@ -138,6 +138,9 @@ def run(ctx):
                       f"{r['search']} on neighbour map {r['map']} universe {r['universe']} attribute pattern {r['pattern']} ({r['vcls']}): {what}", replay=replay(r))
     res.rule("FIRST-MATCH", n)
     opt_rule(ctx, res)
+    from rules import hist
+    hist.run(ctx, res, "C08")       # composition: histories through the public API against the reference model (rules/hist.py)
+    common.vacuity(res, "HISTORY", 2500)
     steps(ctx, res)
     common.vacuity(res, "FIRST-MATCH", 3000)
     res.analysed = common.analysed(ctx, [f"{m}.{s}" for m, l, g, s in trav.TRAVS.values()])
